@@ -213,6 +213,14 @@ def groupNorms (groups : List (List Nat)) (v : FV) : List Float :=
 def groupProx (groups : List (List Nat)) (t : Float) (v : FV) : FV := Id.run do
   let mut out := v.a
   for G in groups do
+    -- singleton groups (real l1 norm): sign(v) * max(|v| - t, 0), exact in binary64 for dyadic data (exact stream)
+    match G with
+    | [i] =>
+      let a := v.get i
+      let m := Float.abs a - t
+      out := out.set! i (if m > 0.0 then (if a < 0.0 then -m else m) else 0.0)
+      continue
+    | _ => pure ()
     let nrm := Float.sqrt (G.foldl (fun acc i => acc + v.get i * v.get i) 0.0)
     let fct := if nrm > 0.0 then (let r := 1.0 - t / nrm; if r > 0.0 then r else 0.0) else 0.0
     for i in G do
